@@ -74,5 +74,12 @@ Depth2Base == <<Opt(I32), Ptr(TRUE, I32), Ptr(FALSE, U8), Slice(U8), Arr(2, I32)
                 EU(Str, I32), D1, E1, S1, AS2>>
 Depth2 == Constructed(Depth2Base)
 
+(* universe 3: two constructor levels around the weak numbers and the strong types they can
+   become (^^{uint} vs ^^i32, ^?{uint} vs ^?u64, ...): specialisation looks through pointers and
+   optionals, and so must acceptance *)
+Depth3Base == <<Ptr(FALSE, WUInt), Ptr(FALSE, I32), Ptr(TRUE, WUInt), Ptr(TRUE, I32), Opt(WUInt), Opt(U64),
+                Ptr(FALSE, WFloat), Ptr(FALSE, F64), Opt(WInt), Opt(I32)>>
+Depth3 == Depth3Base \o Constructed(Depth3Base)
+
 Range(seq) == {seq[k] : k \in 1..Len(seq)}
 ================================================================================
